@@ -40,7 +40,7 @@ theorem exPb_wf : WellFormed exPb := by
   rcases hc with rfl | rfl <;> decide
 
 example : WellFormed exPb ∧ ∃ P, program exPb = .ok P ∧ P.keys = [0, 1, 2] ∧ P.decls.length = 3 + (3 + 3 + 2) ∧
-    P.cs.length = (2 + 2 + 2 + 3) + 2 + (2 + 2) + (1 + 1) + (1 + 1) :=
+    P.cs.length = (2 + 3) + 2 + (2 + 2) + (2 + 2) :=
   ⟨exPb_wf, _, rfl, by decide, by decide, by decide⟩
 
 end Cspuz.C11.Compass
